@@ -35,7 +35,7 @@ META = {
                     'by a one-letter marker token; no catcode op inside an argument group; \\gdef writes the bottom frame and '
                     'may be shadowed by a live local definition (lookup yields the innermost live definition)',
                     'no fault space exists for this property (sequential refinement only)'],
-    'probe_names': ['dfs_exhaustive', 'declaration_inside_its_environment_form', 'catcode_char_directly_after_group_end', 'locals_sweep', 'unknown_environment_in_math', 'package_loaded_inside_group', 'user_environment', 'fresh_name_global_in_nesting', 'catalogue_scope', 'catalogue_dimen_spelling', 'catalogue_raise', 'declaration_frame', 'change_after_declaration_restored', 'char_let_shadowed', 'local_def_restored', 'global_def_survives', 'let_restored', 'catcode_restored', 'if_survives', 'counter_survives',
+    'probe_names': ['dfs_exhaustive', 'box_inside_math', 'declaration_inside_its_environment_form', 'catcode_char_directly_after_group_end', 'locals_sweep', 'unknown_environment_in_math', 'package_loaded_inside_group', 'user_environment', 'fresh_name_global_in_nesting', 'catalogue_scope', 'catalogue_dimen_spelling', 'catalogue_raise', 'declaration_frame', 'change_after_declaration_restored', 'char_let_shadowed', 'local_def_restored', 'global_def_survives', 'let_restored', 'catcode_restored', 'if_survives', 'counter_survives',
                     'nested_depth_ge3', 'env_inside_group', 'group_inside_env', 'math_group', 'cell_scope', 'argument_group',
                     'gdef_shadowed', 'catcode_cow_two_frames'],
     'shrink_budget': 400,
@@ -49,9 +49,10 @@ PKGS = [('ifthen', 'ifthenelse'), ('cancel', 'cancel'), ('url', 'url'), ('color'
 FRESH = ['qfa', 'qfb']       # names that are NOT defined at the start: existence tests (\ifdefined, `in`, keys()) follow the stack too
 API_KINDS = ['group', 'env']
 TEX_KINDS = ['brace', 'begingroup', 'center', 'quote', 'math', 'cell', 'textbf', 'mbox', 'parenmath', 'displaymath',
-             'equation', 'itemize', 'minipage', 'footnote', 'dollars', 'figurestar', 'multicolumn', 'qenva', 'qenvb', 'qenvc', 'qunk']
+             'equation', 'itemize', 'minipage', 'footnote', 'dollars', 'figurestar', 'multicolumn', 'qenva', 'qenvb', 'qenvc', 'qunk', 'textcmd', 'fbox', 'parbox', 'makebox']
 MATH_KINDS = ('math', 'parenmath', 'displaymath', 'equation', 'dollars')
-ARG_KINDS = ('textbf', 'mbox', 'footnote', 'multicolumn', 'mboxm')
+ARG_KINDS = ('textbf', 'mbox', 'footnote', 'multicolumn', 'mboxm', 'textcmd', 'fbox', 'parbox', 'makebox', 'textcmdm', 'fboxm', 'parboxm', 'makeboxm')
+BOX_IN_MATH = {'mbox': 'mboxm', 'textcmd': 'textcmdm', 'fbox': 'fboxm', 'parbox': 'parboxm', 'makebox': 'makeboxm'}   # text mode again inside
 
 
 def generate(seed, tier):
@@ -400,12 +401,15 @@ OPEN_TEX = {'brace': '{', 'begingroup': '\\begingroup ', 'center': '\\begin{cent
             'equation': '\\begin{equation}', 'itemize': '\\begin{itemize}\\item ', 'minipage': '\\begin{minipage}{3cm}',
             'footnote': '\\footnote{', 'dollars': '$$ ', 'figurestar': '\\begin{figure*}',
             'multicolumn': '\\begin{tabular}{ll}\\multicolumn{2}{c}{', 'mboxm': '\\mbox{',
+            'textcmd': '\\text{', 'fbox': '\\fbox{', 'parbox': '\\parbox{3cm}{', 'makebox': '\\makebox[2cm]{',
+            'textcmdm': '\\text{', 'fboxm': '\\fbox{', 'parboxm': '\\parbox{3cm}{', 'makeboxm': '\\makebox[2cm]{',
             'qenva': '\\begin{qenva}', 'qenvb': '\\begin{qenvb}', 'qenvc': '\\begin{qenvc}{}',
             'qunk': '\\begin{qunk}'}            # an environment nobody defined (also used inside math: pmatrix without amsmath)
 CLOSE_TEX = {'brace': '}', 'begingroup': '\\endgroup ', 'center': '\\end{center}', 'quote': '\\end{quote}', 'math': '$',
              'cell': '\\end{tabular}', 'textbf': '}', 'mbox': '}', 'parenmath': '\\)', 'displaymath': '\\]',
              'equation': '\\end{equation}', 'itemize': '\\end{itemize}', 'minipage': '\\end{minipage}', 'footnote': '}',
              'dollars': '$$', 'figurestar': '\\end{figure*}', 'multicolumn': '}\\end{tabular}', 'mboxm': '}',
+             'textcmd': '}', 'fbox': '}', 'parbox': '}', 'makebox': '}', 'textcmdm': '}', 'fboxm': '}', 'parboxm': '}', 'makeboxm': '}',
              'qenva': '\\end{qenva}', 'qenvb': '\\end{qenvb}', 'qenvc': '\\end{qenvc}', 'qunk': '\\end{qunk}'}
 PREAMBLE = ('\\documentclass{article}\\newcounter{cx}\\newif\\ifsw\\makeatletter\\def\\pr@be{L}\\makeatother\\def\\pr{O}'
             + ''.join('\\def\\%s{%s0}' % (n, n) for n in ALLNAMES)
@@ -472,12 +476,13 @@ def compile_tex(ops, global_prefix=False):
             k = op['kind']
             if in_math and k == 'qunk':
                 m.info['unknown_environment_in_math'] = 1
-            if in_math and k not in ('begingroup', 'mbox', 'qunk'):
+            if in_math and k not in ('begingroup', 'qunk') and k not in BOX_IN_MATH:
                 k = 'brace'
-            if in_math and k == 'mbox':
-                math_saved.append(in_math)      # text mode again inside the box
+            if in_math and k in BOX_IN_MATH:
+                math_saved.append(in_math)      # text mode again inside the box: a $ in there starts a NEW formula
                 in_math = 0
-                k = 'mboxm'
+                k = BOX_IN_MATH[k]
+                m.info['box_inside_math'] = 1
             stack.append(k)
             src.append(OPEN_TEX[k])
             m.open(k)
@@ -495,7 +500,7 @@ def compile_tex(ops, global_prefix=False):
                 in_arg -= 1
             if k in MATH_KINDS:
                 in_math -= 1
-            if k == 'mboxm':
+            if k in BOX_IN_MATH.values():
                 in_math = math_saved.pop()
         elif o == 'CELLSEP':
             if stack and stack[-1] == 'cell':
@@ -579,7 +584,7 @@ def compile_tex(ops, global_prefix=False):
                     in_arg -= 1
                 if k in MATH_KINDS:
                     in_math -= 1
-                if k == 'mboxm':
+                if k in BOX_IN_MATH.values():
                     in_math = math_saved.pop()
         elif o == 'SETIF':
             src.append('\\swtrue ' if op['value'] else '\\swfalse ')
@@ -606,7 +611,7 @@ def compile_tex(ops, global_prefix=False):
             in_arg -= 1
         if k in MATH_KINDS:
             in_math -= 1
-        if k == 'mboxm':
+        if k in BOX_IN_MATH.values():
             in_math = math_saved.pop()
     probe('all')
     return PREAMBLE + ''.join(src) + '\\end{document}', ''.join(e for e in exp if e), m
